@@ -24,6 +24,7 @@ RULE = ("file-backed SqliteStorage with lazy commit. Ground truth: every worker 
 ASSUMPTIONS = ["the age is measured from the latest operation that MAY have flushed (read, bucket op, multi-statement write, no-op "
                "write, or a single-statement write that came back fully committed): an upper bound on the real last flush",
                "nothing is required of a write issued less than 12 s after that point; a write issued later - single event or batch (bulk inserts of 1-250 events, upserts of 1-4 entries with fresh events mixed in) - must be fully committed when the call returns",
+               "a delete of an id the bucket does not hold counts as a write call of the trickle: issued late while something is pending, it must leave nothing pending (it runs the store's commit check on the unchanged tree)",
                "process death only; the observer connection's view = what a crash at that instant leaves"]
 
 SCENARIOS = [
@@ -177,7 +178,10 @@ def run_schedule(steps, ctx, clock, sleeper):
                 t_flush = now()
             else:
                 flushed = committed == hr.view
-                if done is not None and changed and kind != "read" and age >= PAUSE:
+                # (a delete of an id the bucket does not hold is a write call too: it has nothing of its own to make durable,
+                # but it is part of the "trickle of writes" that bounds the age of what is pending - judged when something is)
+                noop_write = kind == "delete_missing" and pending > 0
+                if done is not None and (changed or noop_write) and kind != "read" and age >= PAUSE:
                     # "an event write issued more than about ten seconds after the previous flush is itself made durable
                     # before it returns": the write is the call the client made - a whole batch included - so nothing the
                     # writer can see may be missing from the committed state when the call returns
